@@ -138,15 +138,18 @@ func lockPairing(c *cx, id string, classes []string, wrappers map[string]bool) {
 				c.r.Check(id, f, "acquire of "+cls+" (wrapper)", "O: acquire wrapper: the lock is handed to the returned closer (typestate checked separately)", cl.Pos(), true, "")
 				continue
 			}
-			if g.DeferredUnlocks()[cls] {
-				c.r.Check(id, f, "acquire of "+cls, "O: release is deferred", cl.Pos(), true, "")
-				continue
-			}
 			pt, _ := g.Where(cl)
 			bad := ""
+			// A deferred release counts from the point where the defer statement
+			// runs: a return between the acquire and the defer leaks the lock.
 			isRel := func(q eng.Point, nd ast.Node) bool {
 				found := false
 				ast.Inspect(nd, func(x ast.Node) bool {
+					if _, lit := x.(*ast.FuncLit); lit {
+						if _, isDefer := g.Parent(x).(*ast.CallExpr); !isDefer {
+							return false
+						}
+					}
 					if cc, ok := x.(*ast.CallExpr); ok {
 						if op2, cls2, _ := f.LockOp(cc); op2 < 0 && cls2 == cls {
 							found = true
@@ -155,6 +158,15 @@ func lockPairing(c *cx, id string, classes []string, wrappers map[string]bool) {
 					return !found
 				})
 				return found
+			}
+			// a release deferred before the acquire covers every return after it
+			isDeferRel := func(q eng.Point, nd ast.Node) bool {
+				_, d := nd.(*ast.DeferStmt)
+				return d && isRel(q, nd)
+			}
+			if g.DeferredUnlocks()[cls] && !g.Reachable(g.Entry(), pt, nil, isDeferRel) {
+				c.r.Check(id, f, "acquire of "+cls, "O: the release is deferred before the acquire", cl.Pos(), true, "")
+				continue
 			}
 			for _, rs := range g.Returns {
 				rp, _ := g.Where(rs)
